@@ -7,7 +7,7 @@ from vlib import Recorder, Report, b2l, call, exc_info
 
 
 def small_tx(r, witness):
-    d = gen.gen_tx(r, nin=r.choice([1, 1, 2]), nout=r.choice([1, 1, 2]), witness="none", lens=[0, 1, 2, 25])
+    d = gen.gen_tx(r, nin=r.choice([1, 1, 2]), nout=r.choice([1, 1, 2, 0]), witness="none", lens=[0, 1, 2, 25])     # (weights are defined for output-less transactions too)
     if witness:
         d["wit"] = [([gen.rbytes(r, r.choice([1, 32, 72, 252, 253, 300]))] if r.random() < 0.85 else [b"\x01"] * r.choice([2, 253, 254]))
                     if r.random() < 0.8 else [] for _ in d["vin"]]
